@@ -60,6 +60,16 @@ CLAIMED = {
                 note='trusted: stub source instead of HTTP client, SimFS flock/rename semantics, pre-emption at seam calls only; '
                      'TileManager level (not the WSGI stack)',
                 technique='deterministic simulation: baton-passing scheduler over threads and simulated processes, simulated fs/locks/upstream, seeded schedule + fault search'),
+    'C13': dict(level='exploration', ref='DESIGN.md 6.7',
+                text='seeded histories of tile requests, clock advances (sub-second, to a second boundary, backwards, hours), '
+                     'threshold changes (relative age, absolute ISO time, mtime of a file), touches of that file, upstream '
+                     'failure/recovery and real refresh seed tasks, on the real TileManager (single- and meta-tile creation) with '
+                     'file cache on SimFS or per-level sqlite cache; oracle from the timestamps actually recorded: stale tile => '
+                     'upstream asked, tile rewritten with the new fetch generation; fresh tile => no upstream call, same '
+                     'generation; a failed refresh never removes or changes the stored tile; same-second band unspecified.',
+                note='trusted: simulated clock behind time.time/time.sleep/datetime.now of util/times.py, stub upstream, SimFS mtimes; '
+                     'sqlite backend outside the simulator (TZ=UTC)',
+                technique='deterministic simulation: simulated clock + simulated upstream with failure injection, model-based history checking'),
 }
 
 NA = {
@@ -75,7 +85,7 @@ NA = {
     'C18': 'well-formedness/escaping of responses is a function of the request bytes',
 }
 
-PENDING = ['C11', 'C12', 'C13', 'C20']
+PENDING = ['C11', 'C12', 'C20']
 
 
 def main():
